@@ -4,6 +4,7 @@
 -/
 import Vlsp.Model.Claim
 import Vlsp.Lemmas.DbLemmas
+import Vlsp.Props.C08
 
 namespace Vlsp.C09
 open Vlsp Vlsp.Text Vlsp.Db Vlsp.Claim
@@ -206,6 +207,72 @@ theorem j_same_fs {σ : Sys} (hj : J σ) (db' : Db) (hi' : Inv db') (hfs : ∀ k
   ⟨hi', fun w hw => by obtain ⟨s, hs, hd⟩ := hj.winRow w hw; exact ⟨s, by rw [hfs]; exact hs, hd⟩,
    hj.uniq, fun k s hs => hj.past k s (by rw [← hfs]; exact hs), hp, he⟩
 
+/-! ### data writes leave every claim as it is -/
+
+/-- "claimed since `s`" is neither created nor destroyed -/
+def SameClaims (db' db : Db) : Prop := ∀ k s, fsOf db' k = some (some s) ↔ fsOf db k = some (some s)
+
+theorem sameClaims_upsertTouch (db : Db) (k : Key) (now : Int) : SameClaims (db.stmtUpsertTouch k now) db := by
+  intro k' s
+  unfold Db.stmtUpsertTouch fsOf
+  split
+  · rw [findPkg_updatePkgs db k k' (fun p => { p with updatedAt := now }) (fun _ => rfl)]
+    cases db.findPkg k' with
+    | none => simp
+    | some p => simp only [Option.map_some]; split <;> simp
+  · rename_i hno
+    rw [findPkg_insertPkg]
+    cases hf : db.findPkg k' with
+    | some p => simp
+    | none =>
+      simp only [Option.map_none]
+      by_cases hk : k = k'
+      · simp [hk]
+      · simp [hk]
+
+theorem sameClaims_mark (db : Db) (k : Key) (now : Int) : SameClaims (db.stmtMark k now) db := by
+  intro k' s
+  unfold Db.stmtMark fsOf
+  split
+  · rw [findPkg_updatePkgs db k k' (fun p => { p with notFound := true }) (fun _ => rfl)]
+    cases db.findPkg k' with
+    | none => simp
+    | some p => simp only [Option.map_some]; split <;> simp
+  · rw [findPkg_insertPkg]
+    cases hf : db.findPkg k' with
+    | some p => simp
+    | none =>
+      simp only [Option.map_none]
+      by_cases hk : k = k'
+      · simp [hk]
+      · simp [hk]
+
+theorem findPkg_insertVersions (db : Db) (pid : Nat) (vs : List Text) (k : Key) :
+    (vs.foldl (fun d v => d.stmtInsertVersionIgnore pid v) db).findPkg k = db.findPkg k := by
+  induction vs generalizing db with
+  | nil => rfl
+  | cons v rest ih =>
+    simp only [List.foldl_cons]
+    rw [ih]
+    unfold Db.stmtInsertVersionIgnore Db.findPkg
+    split <;> rfl
+
+theorem sameClaims_replaceVersions (db : Db) (k : Key) (vs : List Text) (now : Int) :
+    SameClaims (Cache.replaceVersions db k vs now) db := by
+  intro k' s
+  unfold Cache.replaceVersions
+  simp only
+  split
+  · exact Iff.rfl
+  · unfold fsOf
+    rw [findPkg_insertVersions]
+    exact sameClaims_upsertTouch db k now k' s
+
+/-- the invariant survives any change of the database that keeps it well formed and leaves the claims as they are -/
+theorem j_frame {σ : Sys} (hj : J σ) (db' : Db) (hi' : Inv db') (hc : SameClaims db' σ.db) : J { σ with db := db' } :=
+  ⟨hi', fun w hw => by obtain ⟨s, hs, hd⟩ := hj.winRow w hw; exact ⟨s, (hc _ _).mpr hs, hd⟩,
+   hj.uniq, fun k s hs => hj.past k s ((hc _ _).mp hs), hj.pendPast, hj.entPast⟩
+
 /-- an INSERT OR IGNORE that created the row -/
 theorem j_win_insert {σ : Sys} (hj : J σ) (c : Claimant) (k : Key) (t0 : Int) (ht : t0 ≤ σ.now)
     (pend : List (Claimant × Key × Int)) (hp : ∀ p ∈ pend, p.2.2 ≤ σ.now)
@@ -353,6 +420,12 @@ theorem j_step {σ : Sys} (hj : J σ) (ev : Ev) : J (step σ ev) := by
   | die c =>
     simp only [step]
     exact j_same_fs hj σ.db hj.inv (fun _ => rfl) _ (filter_pend hj c) σ.lost _ (filter_ent hj c)
+  | store k vs =>
+    simp only [step]
+    exact j_frame hj _ (C08.inv_replaceVersions hj.inv k vs σ.now) (sameClaims_replaceVersions σ.db k vs σ.now)
+  | mark k =>
+    simp only [step]
+    exact j_frame hj _ (C08.inv_markNotFound hj.inv k σ.now) (sameClaims_mark σ.db k σ.now)
   | tick d =>
     simp only [step]
     have hd : (0 : Int) ≤ d := Int.natCast_nonneg d
